@@ -399,6 +399,12 @@ class HostFunc(object):
             if isinstance(a, NDNaN):
                 raise Indeterminate('nondeterministic NaN passed to host')
         self.trace.append(('H', self.index, inst.tag, tuple(args)))
+        if inst.ev is not None:
+            inst.ev['host_call'] += 1
+            if len(args) >= 3 and len(set(self.ftype[0])) >= 2:
+                inst.ev['host_call_mixed_args>=3'] += 1
+            if inst.nimp_total > 1 and self.index > 0:
+                inst.ev['host_call_not_first_import'] += 1
         rs = self.ftype[1]
         return host_result(self.index, args, rs[0]) if rs else None
 
@@ -446,6 +452,7 @@ class Instance(object):
             else:
                 self.table = obj
         self.nimp = len(self.funcs)
+        self.nimp_total = len(m.imports)
         self.funcs.extend(m.funcs)
         if m.memory is not None:
             mn, mx = m.memory[0], m.memory[1]
@@ -498,6 +505,11 @@ class Instance(object):
         self.depth += 1
         if self.depth > 150:
             raise OutOfContract('call depth')
+        if self.ev is not None:
+            if self.depth >= 3:
+                self.ev['call_depth>=3'] += 1
+            if len(args) >= 3 and len(set(self.m.types[f.type][0])) >= 2:
+                self.ev['call_mixed_args>=3'] += 1
         ft = self.m.types[f.type]
         frame = _Frame(args + [0] * len(f.locals), len(args))
         try:
@@ -651,6 +663,12 @@ class Instance(object):
                     tft = tgt[0].m.func_type(tgt[1])
                 if tft != ft:
                     raise OutOfContract('indirect call signature mismatch')
+                if self.ev is not None:
+                    self.ev['call_indirect'] += 1
+                    if i > 0:
+                        self.ev['call_indirect_slot>0'] += 1
+                    if isinstance(tgt, HostFunc) or tgt[1] < tgt[0].nimp:
+                        self.ev['call_indirect_to_import'] += 1
                 n = len(ft[0])
                 args = st[len(st) - n:] if n else []
                 if n:
